@@ -6,6 +6,7 @@
 // evaluated for every key / height in range (and just out of range) and compared
 //   - with the oracle (chain.Spec: a Go slice of the committed blocks)  -> Fail on any difference,
 //   - with the Coq model (C19.Model.check evaluates the model on the same history) -> cases_NNN.v.
+//
 // Concurrent part: readers run freely during mergePermanent + cleanRemoved; oracle: per reader and key
 // the heights of the returned states never decrease, and equal the committed latest state.
 package main
@@ -109,7 +110,7 @@ func runChain(o *vh.Opts, res *vh.Result, cases *vh.Cases, cr *vh.Rand, p chain.
 		res.Fail(cl, fmt.Sprintf("chain %d step %d: %s = %d, committed chain says %d", ci, m.Step, m.Read, m.Impl, m.Want), rp2)
 	}
 	// model case
-	cases.Add(chain.CoqCase(cfg, init, ops, steps), map[string]any{"chain": ci, "cfg": cfg, "ops": ops})
+	cases.Add(chain.CoqCase(cfg, init, ops, steps, false), map[string]any{"chain": ci, "cfg": cfg, "ops": ops})
 }
 
 // concurrent: free-running readers call Center.State / StateBytes while the main goroutine writes new
@@ -273,7 +274,7 @@ func concurrent(o *vh.Opts, res *vh.Result, r *vh.Rand) {
 					merges = 0
 				}
 				if merges%3 == 0 {
-					inflight.Lock() // wait for the reads in flight: no read spans more than 3 merges
+					inflight.Lock()   // wait for the reads in flight: no read spans more than 3 merges
 					inflight.Unlock() //nolint:staticcheck //...
 				}
 			}
